@@ -136,6 +136,7 @@ class Engine:
         self.path_notes = []      # free-form notes harnesses attach to the current path
         self.covers = {}          # label -> count of paths reaching it
         self.in_path = False
+        self.decided = {}
 
     # -- symbolic inputs ---------------------------------------------------------------------
     def fresh_int(self, name, lo=None, hi=None):
@@ -228,6 +229,20 @@ class Engine:
             return True
         if z3.is_false(cond):
             return False
+        # a condition already decided on this path keeps its value (the path condition only grows)
+        cid = cond.get_id()
+        hit = self.decided.get(cid)
+        if hit is not None:
+            return hit[0]
+        if z3.is_not(cond):
+            hit = self.decided.get(cond.arg(0).get_id())
+            if hit is not None:
+                return not hit[0]
+        r = self._decide(cond)
+        self.decided[cid] = (r, cond)     # keep the term alive: z3 reuses ids of collected ASTs
+        return r
+
+    def _decide(self, cond):
         self.stats.decisions += 1
         i = self.pos
         self.pos += 1
@@ -309,6 +324,7 @@ class Engine:
             self.sym_names = {}
             self.path_notes = []
             self.char_width = {}
+            self.decided = {}
             self.solver.push()
             outcome = None
             try:
